@@ -228,6 +228,14 @@ def check_C10(ctx):
         else:
             ctx.oracle_fail('budget-no-answer', cmd, {'answer': out})
     ctx.sample({'input': cmd, 'engine': out})
+    # a clock of exactly 0 ms (below the property's clock range): the budget must still be finite and not negative
+    for side in 'wb':
+        for extra in ['', ' winc 100 binc 100', ' movestogo 5', ' winc 0 binc 0 movestogo 1']:
+            cmd0 = f'budget {side} ; wtime 0 btime 0{extra}'
+            out0 = ctx.corr(cmd0)
+            ctx.count('zero-clock-cases')
+            if not out0 or not re.fullmatch(r'-1 \d+', out0[0]):
+                ctx.oracle_fail('zero-clock-budget-not-finite', cmd0, {'answer': out0})
     # movetime is exact; infinite / depth are unlimited
     for T in [0, 1, 5, 100, 999, 2000, 2001, 123456] + [rng.randrange(1, 10**7) for _ in range(50)]:
         for extra in ['', ' wtime 5 btime 5', ' wtime 100000 btime 100000 winc 5 binc 5 movestogo 3']:
@@ -1388,7 +1396,7 @@ def check_C03(ctx):
     # the real binary, real time: all go forms
     blackbox_go_forms(ctx, roots[: (6 if ctx.quick else 60)])
     # budgets of a second and more are enforced too (the answer comes when the budget is used up, not at the next input line)
-    for form, budget in [('go movetime 1100', 1100), ('go wtime 40000 btime 40000', 1234)] + ([] if ctx.quick else [('go movetime 2500', 2500), ('go wtime 100000 btime 100000 winc 1000 binc 1000', 4234)]):
+    for form, budget in [('go movetime 1100', 1100), ('go wtime 40000 btime 40000', 1234), ('go wtime 0 btime 0', 0), ('go wtime 0 btime 5000 winc 0 binc 0', 0)] + ([] if ctx.quick else [('go movetime 2500', 2500), ('go wtime 100000 btime 100000 winc 1000 binc 1000', 4234)]):
         out, dt = timed_go(['position startpos moves d2d4 g8f6', form], budget / 1000.0 + 2.0)
         ctx.count('realtime-long-budget-runs'); ctx.evaluations += 1
         if out is None:
@@ -2513,7 +2521,7 @@ def session_script(ctx, rng, games):
              lambda: f'go depth {rng.choice([1, 2, 2, 3, 3, 4])}', lambda: f'go depth {rng.choice([1, 2, 3])}', lambda: 'go movetime 0',
              lambda: f'go movetime 0 depth {rng.choice([2, 3])}', lambda: f'Go  depth {rng.choice([1, 2])}', lambda: 'IsReady', lambda: 'ISREADY extra words',
              lambda: 'position', lambda: 'hello', lambda: '', lambda: 'UCI', lambda: 'go depth', lambda: 'go depth x', lambda: 'go foo depth 2',
-             lambda: ' isready', lambda: 'isready\t', lambda: 'EVAL', lambda: 'D', lambda: 'Position startpos', lambda: 'go depth 2 ', lambda: 'isready  ']
+             lambda: 'go depth 0', lambda: ' isready', lambda: 'isready\t', lambda: 'EVAL', lambda: 'D', lambda: 'Position startpos', lambda: 'go depth 2 ', lambda: 'isready  ']
     # commands no GUI may send (they end the process in the engine and in the model alike): compared, not judged
     malformed = [lambda: 'go depth 2 movestogo', lambda: 'position fen', lambda: 'position startpos moves e2e5', lambda: 'position xyz abc', lambda: 'position  startpos', lambda: 'move e2e5']
     n = rng.choice([3, 6, 10, 16])
